@@ -13,6 +13,7 @@ import GripGen.MongoTyping
 import GripGen.CoreTypingC14
 import GripProofs.Lemmas.C14
 import GripProofs.Lemmas.C14Old
+import GripProofs.Lemmas.C14Mark
 import GripProofs.Lemmas.C14T
 
 namespace Grip.Props.C14
@@ -411,6 +412,107 @@ theorem filter_short_range_no_crash (numOf : String → Option Int) (d : Res) (n
     evalBy numOf d (.cond "x" .inside (.num 1024)) = false := by
   refine ⟨by cases n <;> rfl, rfl, ?_⟩
   simp [evalBy, matchesCond, range3, toSlice]
+
+/-! ### Keys in the namespace of a mark (C14-mark-key, REPAIRED by d374bbd)
+
+  All filter theorems above are stated over a resolver `d : Res` (what a key resolves to); for one
+  element it is `lookup e` and `evalBy` is `Grip.C08.eval` (`core_is_C08`).  Here the two resolvers
+  are spelled out for a traveler with marks: `coreRes t` is jsonpath.TravelerPathLookup (the key's
+  namespace picks the current element or the mark), `mongoRes t` is MongoDB's dotted-path lookup of
+  the field name convertPath emits (`mpathL`) on the pipeline document `pipeDoc t`
+  (`{_id, label, data, from, to, marks: {a: {_id, …}}}`). -/
+
+/-- `evalBy` over one element is the core model proved in C08. -/
+theorem core_is_C08 (numOf : String → Option Int) (e : Elem) (x : HasE) :
+    evalBy numOf (lookup e) x = Grip.C08.eval numOf e x :=
+  Mark.evalBy_lookup numOf e x
+
+/-- FULL, every traveler and every key (any namespace, any path, reserved fields, gid → _id also
+    inside a mark): when the mark the key names is present ("marks defined before use") and the key
+    addresses a field, the field name convertPath emits resolves, on the pipeline document, to
+    exactly the value the core engine looks up. -/
+theorem mark_key_addresses_mark (t : Trav) (k : String)
+    (hd : keyDefined t k = true) (ha : keyAddressesField k = true) :
+    mongoRes t k = coreRes t k :=
+  Mark.mongoRes_eq_coreRes t k hd ha
+
+/-- Filter equivalence on pipeline documents WITH marks, keys in any namespace, both polarities,
+    any nesting depth.  Hypotheses: the marks named in the expression are present (the property's
+    "marks defined before use"; an absent mark is outside: the core engine then reads the ToDict of
+    a nil element, `""` for `$c._gid`, MongoDB a missing field), every key addresses a field (a key
+    that is a bare namespace resolves to a whole document, not a scalar), and the region `agreeW`
+    judged on the values the CORE engine looks up.  PARTIAL only for the reason of
+    `filter_equiv_partial` (open finding C14-order-cast, non-scalar values). -/
+theorem filter_equiv_marks_partial (numOf : String → Option Int) (t : Trav) (e : HasE) (n : Bool)
+    (hd : marksDefined t e = true) (ha : keysAddressFields e = true)
+    (h : agreeW numOf (coreRes t) e = true) :
+    mEval (mongoRes t) (convert e n) = some (evalBy numOf (coreRes t) e != n) := by
+  rw [Mark.convert_congr t e n hd ha]
+  exact Lemmas.equivW numOf (coreRes t) e n h
+
+/-- The same from the driver's classification (`whys` names no reason). -/
+theorem filter_equiv_marks_classified (numOf : String → Option Int) (t : Trav) (e : HasE) (n : Bool)
+    (hd : marksDefined t e = true) (ha : keysAddressFields e = true)
+    (h : whys numOf (coreRes t) e = []) :
+    mEval (mongoRes t) (convert e n) = some (evalBy numOf (coreRes t) e != n) :=
+  filter_equiv_marks_partial numOf t e n hd ha (Lemmas.whys_nil numOf (coreRes t) e h)
+
+/-- FULL for the operators that have no open finding (eq / neq here): whatever the traveler, for a
+    present mark and a field key the emitted filter selects exactly what the core engine keeps —
+    no agreement region, any field value (scalar or not). -/
+theorem filter_equiv_marks_eq (numOf : String → Option Int) (t : Trav) (k : String) (a : JV) (n : Bool)
+    (hd : keyDefined t k = true) (ha : keyAddressesField k = true) :
+    mEval (mongoRes t) (convert (.cond k .eq a) n) = some (evalBy numOf (coreRes t) (.cond k .eq a) != n) ∧
+    mEval (mongoRes t) (convert (.cond k .neq a) n) = some (evalBy numOf (coreRes t) (.cond k .neq a) != n) := by
+  rw [mark_key_addresses_mark t k hd ha |> fun h => Mark.leaf_congr _ _ k .eq a n h,
+      mark_key_addresses_mark t k hd ha |> fun h => Mark.leaf_congr _ _ k .neq a n h]
+  cases n <;> simp [convert, convCond, opOf, mEval, evalOp, evalBy, matchesCond]
+
+section markTests
+/-- test: a traveler at v1 (x = 1) that marked v2 (x = 2) as `a`. -/
+def t0 : Trav :=
+  { cur := { gid := "v1", label := "L", data := .obj [("x", .num 1024)] },
+    marks := [("a", { gid := "v2", label := "A", data := .obj [("x", .num 2048)] })] }
+-- test (evaluation; string splitting does not reduce in the kernel): what the key forms resolve to
+#guard nsOf "$a.x" == some "a" && nsOf "$.x" == none && nsOf "x" == none && nsOf "$__current__.x" == none
+#guard Path.jsonPathOf "$a.x" == ["data", "x"]
+#guard mpath "$a.x" == "marks.a.data.x" && mpath "$a._gid" == "marks.a._id" && mpath "$a._label" == "marks.a.label"
+#guard mpath "x" == "data.x" && mpath "$.x" == "data.x" && mpath "_gid" == "_id" && mpathOld "$a.x" == "data.x"
+#guard mpath "$a.x" == ".".intercalate (mpathL "$a.x") && mpath "_gid" == ".".intercalate (mpathL "_gid")
+#guard mongoRes t0 "$a.x" == .num 2048 && coreRes t0 "$a.x" == .num 2048 && mongoResOld t0 "$a.x" == .num 1024
+#guard mongoRes t0 "$a._gid" == .str "v2" && coreRes t0 "$a._gid" == .str "v2" && mongoRes t0 "_gid" == .str "v1"
+#guard keyDefined t0 "$a.x" && !keyDefined t0 "$b.x" && keyAddressesField "$a.x" && !keyAddressesField "$a"
+-- test: outside the hypothesis (mark b absent) the two sides do differ on `_gid`
+#guard coreRes t0 "$b._gid" == .str "" && mongoRes t0 "$b._gid" == .null
+
+/-- test (non-vacuity of `filter_equiv_marks_partial`): hypotheses hold for an expression mixing
+    the current element and mark a (given what the two keys resolve to). -/
+example (t : Trav) (hx : coreRes t "x" = .num 1024) (hax : coreRes t "$a.x" = .num 2048) :
+    agreeW dec (coreRes t) (.and [.cond "$a.x" .gt (.num 1024), .not (.cond "x" .eq (.num 2048))]) = true := by
+  simp [agreeW, agreeWList, leafAgreeW, leafAgree, hx, hax, isScalar, isNumJ, notNumText]
+end markTests
+
+/-- FROZEN, about convertPath BEFORE the fix (it dropped the namespace): on the traveler `t0`
+    (current vertex x = 1, mark a with x = 2) the old filter for `has(eq("$a.x", 1))` —
+    `{data.x: {$eq: 1}}` — addresses the CURRENT document and selects it, the core engine compares
+    mark a's x = 2 and does not keep it; the repaired field name `marks.a.data.x` agrees with core.
+    (`hn`/`hp`: what GetNamespace / GetJSONPath give for "$a.x" — string splitting does not reduce
+    in the kernel; both are checked by evaluation in the `#guard`s above.) -/
+theorem old_mark_key_addresses_current (numOf : String → Option Int)
+    (hn : nsOf "$a.x" = some "a") (hp : Path.jsonPathOf "$a.x" = ["data", "x"]) :
+    mEval (mongoResOld t0) (convert (.cond "$a.x" .eq (.num 1024)) false) = some true ∧
+    evalBy numOf (coreRes t0) (.cond "$a.x" .eq (.num 1024)) = false ∧
+    mEval (mongoRes t0) (convert (.cond "$a.x" .eq (.num 1024)) false) = some false := by
+  have hold : mongoResOld t0 "$a.x" = .num 1024 := by
+    simp [mongoResOld, mpathOldL, basePath, hp, mongoGet, pipeDoc, mongoFields, t0, JV.getPath?, JV.member]
+  have hnew : mongoRes t0 "$a.x" = .num 2048 := by
+    simp [mongoRes, mpathL, hn, basePath, hp, mongoGet, pipeDoc, mongoFields, t0, JV.getPath?, JV.member]
+  have hcore : coreRes t0 "$a.x" = .num 2048 := by
+    simp [coreRes, hn, t0, List.lookup, lookup, Path.lookupDoc, hp, Path.toDict, JV.getPath?, JV.member]
+  refine ⟨?_, ?_, ?_⟩
+  · simp [convert, convCond, opOf, mEval, evalOp, hold]
+  · simp [evalBy, matchesCond, hcore]
+  · simp [convert, convCond, opOf, mEval, evalOp, hnew]
 
 /-! ### Non-vacuity -/
 section examples
